@@ -278,8 +278,17 @@ def observe_aggregate(backend: str, seed, upd, shortcut: Optional[str] = None) -
     col = re.search(r"^\s*(_\w+) = " + acc + r";\s*$", text, flags=re.M)
     cd = re.search(r"^\s*([\w:]+)\s+" + re.escape(col.group(1)) + r"\s*;", all_text(r[1]["files"]), flags=re.M) if col else None
     fix = lambda s: canon(s).replace(acc, "@acc")  # noqa: E731
+    # where the fold happens: the accumulator update belongs to the body of the loop over the elements
+    lines = text.splitlines()
+    ind = lambda ln: len(ln) - len(ln.lstrip())  # noqa: E731
+    f = next((i for i, ln in enumerate(lines) if ln.lstrip().startswith("for (auto &&")), None)
+    in_loop = None
+    if f is not None and ups:
+        close = next((i for i in range(f + 2, len(lines)) if lines[i].strip() == "}" and ind(lines[i]) == ind(lines[f])), len(lines))
+        upd_at = [i for i, ln in enumerate(lines) if re.match(r"^\s*" + acc + r" = ", ln)]
+        in_loop = all(f < i < close for i in upd_at)
     return {"query": src, "type": d.group(1), "init": fix(d.group(3)), "update": [fix(u) for u in ups],
-            "column_type": cd.group(1) if cd else "?"}
+            "column_type": cd.group(1) if cd else "?", "update_in_loop": in_loop}
 
 
 # ---------------------------------------------------------------------------------------------
@@ -622,6 +631,7 @@ def check(tier: str, seed: int, t0: float, build: core.BuildStatus) -> int:
                ("acc/2", ["bin", "Div", ["leaf", "acc"], ["int", 2]], "double"),
                ("acc+fl*db", ["bin", "Add", ["leaf", "acc"], ["bin", "Mult", ["leaf", "fl"], ["leaf", "db"]]], "double"),
                ("it", ["leaf", "it"], "int"), ("fl", ["leaf", "fl"], "float"),
+               ("acc+1", ["bin", "Add", ["leaf", "acc"], ["int", 1]], "int"), ("acc*2", ["bin", "Mult", ["leaf", "acc"], ["int", 2]], "int"),
                ("acc/2**32", ["bin", "Div", ["leaf", "acc"], ["int", 2**32]], "double"),
                ("acc+(db>1)", ["bin", "Add", ["leaf", "acc"], ["cmp", "Gt", ["leaf", "db"], ["int", 1]]], "int")]
     for sk, sd in seeds:
@@ -645,12 +655,15 @@ def check(tier: str, seed: int, t0: float, build: core.BuildStatus) -> int:
                 if "error" in obs:
                     viol("bool-operand-refused" if "bool-operand-refused" in features(up) else "aggregate-refused", f"Aggregate({render(sd, LEAF_QUERY)}, lambda acc, m: {render(up, LEAF_QUERY)}) refused on {backend}: {obs['error']}", replay)
                     continue
+                if obs.get("update_in_loop") is False:
+                    viol("fold-outside-loop", f"Aggregate({render(sd, LEAF_QUERY)}, lambda acc, m: {render(up, LEAF_QUERY)}) on {backend}: the accumulator update is emitted outside the loop over the elements", replay)
+                    continue
                 # oracle: accumulator at least as wide as the seed and as every folded value, and an int fold stays int
                 if RANK.get(obs["type"], -1) < RANK[widest] or (widest == "int" and obs["type"] != "int"):
                     viol("accumulator-too-narrow" if RANK.get(obs["type"], -1) < RANK[widest] else "int-fold-not-int",
                          f"accumulator declared {obs['type']} for a fold of {widest} values on {backend}", replay)
     for short in ("Sum", "Count", "Min", "Max"):
-        for uk, up in (("it", ["leaf", "it"]), ("fl", ["leaf", "fl"]), ("db", ["leaf", "db"])):
+        for uk, up in (("it", ["leaf", "it"]), ("fl", ["leaf", "fl"]), ("db", ["leaf", "db"]), ("one", ["int", 1]), ("two", ["bin", "Add", ["int", 1], ["int", 1]])):
             bump("shortcut")
             for backend in backends:
                 obs = observe_aggregate(backend, None, up, shortcut=short)
@@ -660,8 +673,10 @@ def check(tier: str, seed: int, t0: float, build: core.BuildStatus) -> int:
                 if "error" in obs:
                     viol("aggregate-refused", f"{short} of {uk} refused on {backend}: {obs['error']}", replay)
                     continue
-                elem = "int" if short == "Count" else LEAF_TYPE[up[1]]
-                if RANK.get(obs["type"], -1) < RANK[elem]:
+                elem = "int" if (short == "Count" or up[0] != "leaf") else LEAF_TYPE[up[1]]
+                if obs.get("update_in_loop") is False:
+                    viol("fold-outside-loop", f"{short} over Select(lambda m: {render(up, LEAF_QUERY)}) on {backend}: the accumulator update is emitted outside the loop over the elements (one step per event instead of one per element)", replay)
+                elif RANK.get(obs["type"], -1) < RANK[elem]:
                     viol("accumulator-too-narrow", f"{short} over {elem} accumulates in {obs['type']} on {backend}", replay)
                 elif elem == "int" and obs["type"] != "int":
                     viol("conditional-declared-double" if short in ("Min", "Max") else "int-fold-not-int",
